@@ -22,7 +22,8 @@ RULE = (
 )
 ASSUMPTIONS = ["the capture helper and the uberjob call are on one source line (same f_lineno)", "depth limit read from uberjob._util.traceback.MAX_TRACEBACK_DEPTH"]
 
-KINDS = ["call", "gather_explicit", "gather_implicit", "unpack", "reg_write", "reg_readback", "src_read", "src_noreg", "mtime_stored", "mtime_source",
+MODNAMES = ["gen_builder", "uberjob_pipelines", "uberjobx.build", "my.uberjob.jobs", "__main__"]
+KINDS = ["src_read_shared", "call", "gather_explicit", "gather_implicit", "unpack", "reg_write", "reg_readback", "src_read", "src_noreg", "mtime_stored", "mtime_source",
          "gather_nested_set", "gather_nested_dictkey", "gather_nested_implicit", "gather_nested_deep"]
 
 
@@ -34,7 +35,9 @@ def gen_cases(tier, seed):
         r = random.Random(env.seed_for(s, "descriptor"))  # independent of the stream run_case derives from the same seed
         out.append({"seed": s, "kind": r.choice(KINDS), "depth": r.choice([0, 0, 0, 1, 1, 2, 3, 4, 5, 8]), "helper": r.random() < 0.3,
                     "bare_thread": r.random() < 0.75, "W": r.choice([1, 4]), "filler": r.randint(0, 5),
-                    "copy_reg": r.random() < 0.35})  # run with registry.copy(): the copy must attribute failures to the same lines
+                    "copy_reg": r.random() < 0.35,
+                    "recursive": r.choice([0, 0, 0, 1, 2, 3, 6]),  # the creating helper calls itself: several captured frames share function, file and line
+                    "modname": r.choice(MODNAMES)})  # __name__ of the user's builder module (nothing about uberjob may depend on it)  # run with registry.copy(): the copy must attribute failures to the same lines
     return out
 
 
@@ -47,6 +50,8 @@ CREATE = {
     "gather_nested_dictkey": "a = plan.call(K.mklist)\n{ind}here('X'); node = plan.gather(({{'k': {{a: 1}}}}, 2)); K.out = node",
     "gather_nested_implicit": "a = plan.call(K.mklist)\n{ind}here('X'); c = plan.call(K.ident, [1, ({{a}}, 2)]); K.out = c",
     "gather_nested_deep": "a = plan.call(K.mklist)\n{ind}here('X'); node = plan.gather({{'p': [({{a}},)], 'q': 1}}); K.out = node",
+    # one store object sourced on two different lines; the run depends on the SECOND: a failed read belongs to that line
+    "src_read_shared": "K.shared = K.BadRead(present=True); s0 = registry.source(plan, K.shared)\n{ind}here('X'); s = registry.source(plan, K.shared)\n{ind}y = plan.call(K.ident, s); K.out = y",
     "unpack": "a = plan.call(K.mk2)\n{ind}here('X'); u = plan.unpack(a, 3); K.out = u[0]",
     "reg_write": "x = plan.call(K.ok)\n{ind}here('X'); registry.add(x, K.BadWrite()); K.out = None",
     "reg_readback": "x = plan.call(K.ok)\n{ind}here('X'); registry.add(x, K.BadRead())\n{ind}y = plan.call(K.ident, x); K.out = y",
@@ -62,7 +67,12 @@ def make_source(desc):
     lines = ["# generated builder module"] + ["#"] * desc["filler"]
     body = CREATE[kind]
     if desc["helper"]:
-        lines.append("def helper(plan, registry, here, K):")
+        if desc.get("recursive"):
+            lines.append("def helper(plan, registry, here, K, n=%d):" % desc["recursive"])
+            lines.append("    if n > 0:")
+            lines.append("        return helper(plan, registry, here, K, n - 1)")
+        else:
+            lines.append("def helper(plan, registry, here, K):")
         lines.append("    " + body.format(ind="    "))
         lines.append("    return 1")
         inner = "helper(plan, registry, here, K)"
@@ -173,7 +183,7 @@ def run_case(desc):
 
     src = make_source(desc)
     fname = f"/verif/scratch/gen/c19_{desc['seed']}.py"
-    ns = {}
+    ns = {"__name__": desc.get("modname", "gen_builder")}
     exec(compile(src, fname, "exec"), ns)
     plan = uberjob.Plan()
     registry = uberjob.Registry()
@@ -221,7 +231,7 @@ def run_case(desc):
                 break
             got.append((sf.name, sf.path, sf.line))
             sf = sf.outer
-        expected_fn = {"gather_nested_set": "gather_set", "gather_nested_dictkey": "gather_dict", "gather_nested_implicit": "gather_set", "gather_nested_deep": "gather_set",
+        expected_fn = {"src_read_shared": "read", "gather_nested_set": "gather_set", "gather_nested_dictkey": "gather_dict", "gather_nested_implicit": "gather_set", "gather_nested_deep": "gather_set",
                        "call": "boom", "gather_explicit": "gather_set", "gather_implicit": "gather_set", "unpack": "unpack", "reg_write": "write",
                        "reg_readback": "read", "src_read": "read", "src_noreg": "source", "mtime_stored": "ok", "mtime_source": "source"}[desc["kind"]]
         if getattr(call.fn, "__name__", None) != expected_fn:
@@ -243,7 +253,8 @@ def run_case(desc):
                 bad = f"unexpected cause {exc.__cause__!r}"
     depth_total = len(chain)
     rel = "shallower" if depth_total < LIMIT + 1 else ("equal" if depth_total == LIMIT + 1 else "deeper")
-    res = {"status": "ok", "counters": {"failures_checked": 1, f"kind_{desc['kind']}": 1, f"chain_{rel}": 1, "helper_cases": int(desc["helper"]),
+    res = {"status": "ok", "counters": {"failures_checked": 1, f"kind_{desc['kind']}": 1, f"chain_{rel}": 1, "helper_cases": int(desc["helper"]), "recursive_helper_cases": int(bool(desc["helper"] and desc.get("recursive"))),
+                                        f"modname_{desc.get('modname')}": 1,
                                         "registry_copy_cases": int(bool(desc.get("copy_reg")) and desc["kind"] in ("reg_write", "reg_readback", "src_read", "mtime_stored", "mtime_source"))},
            "sets": {"kinds": [desc["kind"]], "chain_lengths": [str(depth_total)]},
            "nontrivial": desc["kind"] != "call" or depth_total >= LIMIT + 1,
